@@ -29,8 +29,16 @@ type ClientTransport struct {
 	// // of the transport session without being shared - i.e. local derived keys.
 	// state any
 
+	// Prefix is the prefix of the current session: the configured one after Prepare, or the one a
+	// registration response installed through SetSessionParams.
 	Prefix        Prefix
 	TagObfuscator transports.Obfuscator
+
+	// configured is the prefix chosen by configuration: SetParams, or the Prefix field as it was
+	// when the first session was set up (configuredSet tells that it has been recorded). Prepare
+	// starts every session from it.
+	configured    Prefix
+	configuredSet bool
 
 	connectTag       []byte
 	stationPublicKey [32]byte
@@ -105,6 +113,14 @@ func (t *ClientTransport) Prepare(ctx context.Context, dialer func(ctx context.C
 		} else {
 			t.Prefix = DefaultPrefixes[PrefixID(t.parameters.GetPrefixId())]
 		}
+	}
+	// Every session starts from the configured prefix, the one the parameters describe: a prefix
+	// that was installed for the previous session only (registration response) must not be sent
+	// with a registration that names the configured one.
+	if !t.configuredSet {
+		t.keepConfigured()
+	} else {
+		t.Prefix = t.configured
 	}
 	t.sessionParams = proto.Clone(t.parameters).(*pb.PrefixTransportParams)
 
@@ -226,6 +242,7 @@ func (t *ClientTransport) SetSessionParams(incoming *anypb.Any, unchecked ...boo
 		// RegResponse where the registrar may override the chosen prefix with a prefix outside of
 		// the prefixes that the client known about.
 		t.sessionParams = prefixParams
+		t.keepConfigured()
 		t.Prefix = &clientPrefix{
 			bytes:       prefixParams.GetPrefix(),
 			id:          PrefixID(prefixParams.GetPrefixId()),
@@ -236,6 +253,7 @@ func (t *ClientTransport) SetSessionParams(incoming *anypb.Any, unchecked ...boo
 	}
 
 	if prefix, ok := DefaultPrefixes[PrefixID(prefixParams.GetPrefixId())]; ok {
+		t.keepConfigured()
 		t.Prefix = prefix
 		t.sessionParams = proto.Clone(prefixParams).(*pb.PrefixTransportParams)
 
@@ -250,6 +268,7 @@ func (t *ClientTransport) SetSessionParams(incoming *anypb.Any, unchecked ...boo
 			return err
 		}
 
+		t.keepConfigured()
 		t.Prefix = newPrefix
 
 		if t.sessionParams == nil {
@@ -318,7 +337,7 @@ func (t *ClientTransport) SetParams(p any) error {
 
 	// Parameters set by user SetParams must either be random or known Prefix ID.
 	if prefix, ok := DefaultPrefixes[PrefixID(prefixParams.GetPrefixId())]; ok {
-		t.Prefix = prefix
+		t.configure(prefix)
 		t.parameters = prefixParams
 
 		// clear the prefix if it was set. this is used for RegResponse only.
@@ -331,13 +350,31 @@ func (t *ClientTransport) SetParams(p any) error {
 			return err
 		}
 
-		t.Prefix = newPrefix
+		t.configure(newPrefix)
 		t.parameters = prefixParams
 		// t.parameters.PrefixId = proto.Int32(int32(Rand))
 		return nil
 	}
 
 	return ErrUnknownPrefix
+}
+
+// configure records the prefix chosen by configuration. Like the parameters it takes effect with
+// the next Prepare: a session that is already set up keeps the prefix it registered with. Only
+// while no session exists yet does the configured prefix show in t.Prefix right away.
+func (t *ClientTransport) configure(p Prefix) {
+	t.configured, t.configuredSet = p, true
+	if t.sessionParams == nil {
+		t.Prefix = p
+	}
+}
+
+// keepConfigured records the prefix in place as the configured one, unless that has happened
+// already, before a prefix that is valid for the current session only takes its place.
+func (t *ClientTransport) keepConfigured() {
+	if !t.configuredSet {
+		t.configured, t.configuredSet = t.Prefix, true
+	}
 }
 
 // GetDstPort returns the destination port that the client should open the phantom connection to
